@@ -34,11 +34,16 @@ type Config struct {
 	IdxFS     uint32 `json:"idx_fs"`
 	PriFS     uint32 `json:"pri_fs"`
 	MapDesc   bool   `json:"map_desc"`
+	SelDesc   bool   `json:"select_desc,omitempty"`
 	DigestLen int    `json:"digest_len"`
 }
 
 func (c Config) String() string {
-	return fmt.Sprintf("%s/imm=%v/bits=%d/ifs=%d/pfs=%d/desc=%v/dl=%d", c.Primary, c.Immutable, c.Bits, c.IdxFS, c.PriFS, c.MapDesc, c.DigestLen)
+	s := fmt.Sprintf("%s/imm=%v/bits=%d/ifs=%d/pfs=%d/desc=%v/dl=%d", c.Primary, c.Immutable, c.Bits, c.IdxFS, c.PriFS, c.MapDesc, c.DigestLen)
+	if c.SelDesc {
+		s += "/seldesc"
+	}
+	return s
 }
 
 func (c Config) primaryType() string {
@@ -231,19 +236,29 @@ func (w *World) gcIndex(ctx context.Context, scanFree bool) (n int64, e int, err
 }
 
 // NewWorld creates a fresh MemFS, installs it and opens a store on it.
-func NewWorld(c Config) (*World, error) {
+func NewWorld(c Config) (*World, error) { return newWorldWith(c, nil) }
+
+// newWorldWith lets the caller adjust the world (intervals, burst rate,
+// logging) before the store is opened.
+func newWorldWith(c Config, tweak func(w *World)) (*World, error) {
 	w := &World{Cfg: c, FS: vos.NewMemFS(), Model: make(map[string][]byte), GCInt: 1000 * time.Hour, Sync: 1000 * time.Hour}
 	w.FS.MkdirRaw("/s")
 	w.Keys, w.Probes = universe(c)
 	vos.SetBackend(w.FS)
 	setMapOrder(c)
+	if tweak != nil {
+		tweak(w)
+	}
 	if err := w.Open(); err != nil {
 		return nil, err
 	}
 	return w, nil
 }
 
-func setMapOrder(c Config) { vhook.SetMapOrderDesc(c.MapDesc) }
+func setMapOrder(c Config) {
+	vhook.SetMapOrderDesc(c.MapDesc)
+	vhook.SetSelectOrderDesc(c.SelDesc)
+}
 
 func (w *World) options() []store.Option {
 	opts := []store.Option{
